@@ -118,6 +118,18 @@ class SSeq(SymIterable):
     def item(self, j):
         return self.item_fn(j)
 
+    def append(self, x):
+        """list.append on a summarised list: one more item on top (item access forks on the index)"""
+        old_n, old_f = self.n, self.item_fn
+        nt = dim_term(old_n)
+        self.n = SNum(z3.simplify(nt + 1))
+
+        def item(j):
+            if bool(SBool(to_term(j) == nt)):
+                return x
+            return old_f(j)
+        self.item_fn = item
+
     def __getitem__(self, k):
         if isinstance(k, slice):
             raise Unsupported("slice of symbolic sequence")
